@@ -194,6 +194,8 @@ class Sem:
         e = self.w.ident(e)
         if e.op == "call" and e.info in ("cosmwasm_std::to_json_binary", "cosmwasm_std::to_json_vec", "cosmwasm_std::to_binary"):
             return self.w.ident(e.args[0])
+        if e.op == "adt":
+            return e  # to_json_vec is identity-preserving: already stripped
         return None
 
     # ------------------------------------------------------------------ exits (A1)
